@@ -28,13 +28,14 @@ func Make() *Packet {
 }
 
 func New(command int32, seq uint16, flag fatchoy.PacketFlag, body interface{}) *Packet {
-	return &Packet{
+	var pkt = &Packet{
 		Type_: fatchoy.PTypePacket,
 		Cmd:   command,
 		Flg:   flag,
 		Seq_:  seq,
-		Body_: body,
 	}
+	pkt.SetBody(body)
+	return pkt
 }
 
 func (m *Packet) Command() int32 {
